@@ -50,6 +50,23 @@ func (w *monWAL) Save(h raftpb.HardState, es []raftpb.Entry, s raftpb.Snapshot) 
 	defer w.v.mu.Unlock()
 	if err == nil {
 		w.v.saves++
+		// the hypotheses of the run-level theorem (Replica/Run.v ready_ok), observed on the real library: without an
+		// incoming snapshot, new entries are consecutive, start no later than the end of the durable log and above the
+		// durable commit index
+		if len(es) > 0 && etcdRaft.IsEmptySnap(s) && w.v.saves > 1 {
+			if es[0].Index <= w.v.hard.Commit {
+				w.v.violation = append(w.v.violation, fmt.Sprintf("ready contract: a durable write replaces position %d at or below the durable commit index %d", es[0].Index, w.v.hard.Commit))
+			}
+			if w.v.logLast > 0 && es[0].Index > w.v.logLast+1 {
+				w.v.violation = append(w.v.violation, fmt.Sprintf("ready contract: a durable write starts at position %d, the durable log ends at %d", es[0].Index, w.v.logLast))
+			}
+			for k := 1; k < len(es); k++ {
+				if es[k].Index != es[0].Index+uint64(k) {
+					w.v.violation = append(w.v.violation, fmt.Sprintf("ready contract: entries of one durable write are not consecutive (%d after %d)", es[k].Index, es[k-1].Index))
+					break
+				}
+			}
+		}
 		if !isEmptyHS(h) {
 			if h.Term < w.v.hard.Term {
 				w.v.violation = append(w.v.violation, fmt.Sprintf("durable term went backwards: %d -> %d", w.v.hard.Term, h.Term))
@@ -671,6 +688,8 @@ func runC05(a *args) error {
 				key = "raft-glue:sent-before-durable"
 			} else if strings.Contains(v, "converge") {
 				key = "raft-glue:no-convergence"
+			} else if strings.Contains(v, "ready contract") {
+				key = "raft-glue:ready-contract"
 			} else if strings.Contains(v, "forked history") {
 				key = "raft-glue:forked-history"
 			} else if strings.Contains(v, "join") || strings.Contains(v, "added to the partition") {
